@@ -222,7 +222,9 @@ def enter_exit(tree_mod):
         if f is not None:
             for n in ast.walk(f):
                 if isinstance(n, ast.Call) and isinstance(n.func, ast.Attribute) and isinstance(n.func.value, ast.Attribute) and n.func.value.attr == "_lock":
-                    ev.append(n.func.attr)
+                    # `acquire()` must be the plain blocking call: any argument (blocking=False, timeout=...) makes it an
+                    # attempt that may return without the lock
+                    ev.append(n.func.attr if not (n.args or n.keywords) else n.func.attr + "(with arguments)")
         out[name] = ev
     return out
 
